@@ -236,6 +236,8 @@ pub fn run(env: &Env) {
     // long lists: per-position edits at EVERY position (window / batch boundaries at 32, 64, 65, ...)
     let wide_ls: Vec<usize> = if env.thorough() { vec![33, 66, 130, 257] } else { vec![33, 66] };
     for n in &wide_ls { lists.push((format!("W{}", n), distinct_msgs(seed, "c02w", *n))); }
+    // inputs longer than 2^16 octets: an edit in the tail (beyond any 16-bit length) must still be noticed
+    lists.push(("L2-70000B".into(), vec![mccore::fill(seed, "c02-long-msg", 70000), l[2].clone()]));
     let hdrs: Vec<(String, Option<Vec<u8>>)> = if env.thorough() { hdr_alphabet(seed).into_iter().filter(|h| h.0 != "65536B").collect() } else { hdr_alphabet(seed).into_iter().filter(|h| h.0 == "none" || h.0 == "16B").collect() };
     struct Root { id: String, base: St, kid: &'static str, sk: Vec<u8>, hname: String, lname: String }
     let mut roots = Vec::new();
@@ -247,6 +249,7 @@ pub fn run(env: &Env) {
                     for iface in [Iface::Plain, Iface::Blind] {
                         if iface == Iface::Blind && !(k.id == "k0" && (ln == "L0" || ln == "L2")) { continue; }
                         if ln.starts_with('W') && !(k.id == "k0" && hn == "16B") { continue; }
+                        if ln == "L2-70000B" && !(k.id == "k0" && hn == "16B" && iface == Iface::Plain) { continue; }
                         let id = format!("{}/{:?}/{}/{}/{}", s.name(), iface, k.id, hn, ln);
                         roots.push(Root { id, base: St { suite: s, iface, pk: k.pk.clone(), sig: vec![], header: h.clone().unwrap_or_default(), msgs: m.clone(), hdr_none: h.is_none(), msgs_none: false }, kid: k.id, sk: k.sk.clone(), hname: hn.clone(), lname: ln.clone() });
                     }
@@ -254,7 +257,8 @@ pub fn run(env: &Env) {
             }
         }
     }
-    env.ctx.set_rule("roots = honest signatures (plain sign, and blind_sign without commitment) over suites x keys x headers x message lists; from each root ALL single edits of the alphabet: per message bit flips / replace by each letter / delete / duplicate / byte truncate / byte extend / swap distinct / insert each letter at each position / every proper prefix; header := every other alphabet element, bit flips, extend, truncate; pk := every other key of both suites; all 640 signature bit flips; other suite; other interface; None<->empty call forms. Thorough: all ordered pairs of structural edits (bound 2). Long lists (L = 33, 66; thorough + 130, 257): replace / bit flip / delete / adjacent swap at EVERY position. The honest base is judged again after all edits (stale hidden state). A state is the edited (suite, iface, pk, sig, header, messages, call form); it is non-trivial when the real verifier ran on it and its verdict was compared with the semantic and the reference verdict.");
+    for s in suites() { let k = key(s, "k0"); roots.push(Root { id: format!("{}/Plain/k0/70000B/L2-70000B", s.name()), base: St { suite: s, iface: Iface::Plain, pk: k.pk.clone(), sig: vec![], header: mccore::fill(seed, "c02-long-hdr", 70000), msgs: lists.iter().find(|x| x.0 == "L2-70000B").unwrap().1.clone(), hdr_none: false, msgs_none: false }, kid: k.id, sk: k.sk.clone(), hname: "70000B".into(), lname: "L2-70000B".into() }); }
+    env.ctx.set_rule("one root per suite with a 70000-octet header and a 70000-octet message (first / last bit flips, truncation, extension in the tail). roots = honest signatures (plain sign, and blind_sign without commitment) over suites x keys x headers x message lists; from each root ALL single edits of the alphabet: per message bit flips / replace by each letter / delete / duplicate / byte truncate / byte extend / swap distinct / insert each letter at each position / every proper prefix; header := every other alphabet element, bit flips, extend, truncate; pk := every other key of both suites; all 640 signature bit flips; other suite; other interface; None<->empty call forms. Thorough: all ordered pairs of structural edits (bound 2). Long lists (L = 33, 66; thorough + 130, 257): replace / bit flip / delete / adjacent swap at EVERY position. The honest base is judged again after all edits (stale hidden state). A state is the edited (suite, iface, pk, sig, header, messages, call form); it is non-trivial when the real verifier ran on it and its verdict was compared with the semantic and the reference verdict.");
     env.ctx.extra("deviation_bound_completed", json!(bound));
     crate::hist::explore_families(env, &['V'], "verification histories");
     par_for(&roots, |_, r| {
